@@ -358,6 +358,17 @@ def run_case(exe, spec, chunks, cols=80, rows=24, raw_initial=False, probe=None,
                 statuses.append(s.tell_printer(ev[1], ev[2], wait=True))
             elif ev[0] == "print_nowait":
                 statuses.append(s.tell_printer(ev[1], ev[2], wait=False))
+            elif ev[0] == "wait_acks":
+                # a burst was handed over: wait until every print call has returned, then for quiescence
+                t0 = time.time()
+                while time.time() - t0 < s.timeout:
+                    s._drain()
+                    if sum(1 for l in s.obs if l.startswith("P ")) >= ev[1] or s._exited():
+                        break
+                    time.sleep(0.0005)
+                time.sleep(0.003)
+                statuses.append(s.wait_quiet())
+                s.rebase()
         marks.append(len(s.out))
         obs_marks.append(len(s.obs))
         if probe:
